@@ -80,7 +80,7 @@ func ruleCmdIdent(c *Ctx) {
 const textOverflow = "R-overflow-idiom: in the signed-overflow test `(a+b > c) != (b > 0)` the comparand c is the other addend a (sibling check of the counter and hash-field increment); any other comparand rejects valid sums or accepts overflowed ones"
 
 func ruleOverflowIdiom(c *Ctx) {
-	c.S.Rule("R-overflow-idiom", textOverflow, 2)
+	c.S.Rule("R-overflow-idiom", textOverflow, 0) // vacuity is judged together with R-overflow-signs (either form of the test may be used)
 	for _, fn := range c.SrcFuncs() {
 		for _, in := range instrsOf(fn) {
 			ne, ok := in.(*ssa.BinOp)
@@ -473,6 +473,61 @@ func rulePayloadAgree(c *Ctx) {
 	}
 	if len(canon) < 4 {
 		c.S.Undecided("R-payload-agree", "producers", "-", fmt.Sprintf("canonical payload types found for %d key types only", len(canon)))
+	}
+	// producers: the type flag written next to a payload is a FLAG_KEY_TYPE_* constant, or the flag of the key object
+	// that is being copied (clone), or comes from the snapshot loader (which branches on it, R-C19-records) — never a
+	// value computed from a request: the payload stored beside it has one fixed Go type, and every consumer trusts the flag
+	for _, fn := range c.SrcFuncs() {
+		if loaderExempt(fn) {
+			continue
+		}
+		k := 0
+		for _, in := range instrsOf(fn) {
+			st, ok := isStoreTo(in, fFlags)
+			if !ok {
+				continue
+			}
+			k++
+			key := fmt.Sprintf("%s:flag-producer#%d", fnName(fn), k)
+			v := stripValue(st.Val)
+			if constName(v) != "" {
+				c.S.OK("R-payload-agree", key, c.Pos(st.Pos()), "the key type is the constant "+constName(v))
+				continue
+			}
+			if _, f := loadedField(v); f == fFlags {
+				c.S.OK("R-payload-agree", key, c.Pos(st.Pos()), "the key type is copied from the key object being duplicated")
+				continue
+			}
+			if _, isParam := v.(*ssa.Parameter); isParam {
+				// judged at the call sites: every argument a constant or a copied flag
+				okAll, n := true, 0
+				idx := -1
+				for i, q := range fn.Params {
+					if ssa.Value(q) == v {
+						idx = i
+					}
+				}
+				if node := c.CG.Nodes[fn]; node != nil && idx >= 0 {
+					for _, e := range node.In {
+						args := e.Site.Common().Args
+						if e.Site.Common().IsInvoke() || idx >= len(args) {
+							okAll = false
+							continue
+						}
+						n++
+						a := stripValue(args[idx])
+						if _, f := loadedField(a); constName(a) == "" && f != fFlags {
+							okAll = false
+						}
+					}
+				}
+				if okAll && n > 0 {
+					c.S.OK("R-payload-agree", key, c.Pos(st.Pos()), "every caller passes a key-type constant")
+					continue
+				}
+			}
+			c.S.Bad("R-payload-agree", key, c.Pos(st.Pos()), fmt.Sprintf("%s sets a key's type flag to a value that is neither a FLAG_KEY_TYPE_* constant nor the flag of the object being copied (%T): the payload stored beside it has a fixed Go type, so a flag chosen by the request makes every later command of the claimed type assert the wrong payload type and panic", fnName(fn), v))
+		}
 	}
 	// consumers: TypeAssert(load payload) dominated by the true edge of a flag test with a constant
 	for _, fn := range c.SrcFuncs() {
